@@ -27,6 +27,7 @@ type GenCfg struct {
 	NoVars, NoArith, NoMethods, NoDatetime, NoRegex, NoKeyvalue, NoPredItem bool
 	NoAny, NoFilter, NoIdx, NoLiteralRoot, NoDecimal, NoStartsWith         bool
 	NoWildKey                                                              bool
+	NoRoot                                                                 bool // no $ (used for root-independent step sequences)
 	AccessorsOnly                                                          bool // C07: accessors and filters over them
 	ErrBias                                                                bool // more type mismatches
 	PredTopPct                                                             int  // share of predicate check expressions at top level
@@ -70,6 +71,19 @@ func (c GenCfg) withDefaults() GenCfg {
 	return c
 }
 
+// uniform draws an index in [0,k) that is (nearly) uniformly distributed.
+// rapid's integer generators are deliberately biased towards small values,
+// which would distort every weighted choice; a Fibonacci hash of a rapid
+// uint64 keeps the draw inside the library (replay and shrinking work, 0
+// shrinks to alternative 0) while spreading the choices evenly.
+func uniform(t *rapid.T, k int, label string) int {
+	if k <= 1 {
+		return 0
+	}
+	u := rapid.Uint64().Draw(t, label)
+	return int(((u * 0x9E3779B97F4A7C15) >> 33) % uint64(k))
+}
+
 type pgen struct {
 	t      *rapid.T
 	c      GenCfg
@@ -80,7 +94,7 @@ func (g *pgen) n(k int, label string) int {
 	if k <= 1 {
 		return 0
 	}
-	return rapid.IntRange(0, k-1).Draw(g.t, label)
+	return uniform(g.t, k, label)
 }
 func (g *pgen) chance(pct int, label string) bool { return g.n(100, label) < pct }
 func (g *pgen) pick(ss []string, label string) string { return ss[g.n(len(ss), label)] }
@@ -175,8 +189,15 @@ func (g *pgen) primaryChain(cx gctx) *Node {
 		wLast = 40
 	}
 	lit := off(c.NoLiteralRoot || c.AccessorsOnly, 1)
+	wRoot := 40
+	if c.NoRoot {
+		wRoot = 0
+		if wCur == 0 {
+			lit = 1
+		}
+	}
 	switch g.choose("prim",
-		40, wCur, wLast,
+		wRoot, wCur, wLast,
 		off(c.NoVars || c.AccessorsOnly, 8),
 		lit*6, lit*10, lit*5, lit*3, // str int num bool/null
 	) {
@@ -548,7 +569,7 @@ func (d *dgen) n(k int, l string) int {
 	if k <= 1 {
 		return 0
 	}
-	return rapid.IntRange(0, k-1).Draw(d.t, d.label+l)
+	return uniform(d.t, k, d.label+l)
 }
 
 // rich builds an array of 2-4 elements (or an object whose members are such
@@ -786,7 +807,7 @@ func GenWalk(t *rapid.T, doc any, maxSteps int, strict bool, label string) (*Nod
 		if k <= 1 {
 			return 0
 		}
-		return rapid.IntRange(0, k-1).Draw(t, label+l)
+		return uniform(t, k, label+l)
 	}
 	items := []any{doc}
 	var first, last *Node
@@ -877,7 +898,7 @@ func GenCondFor(t *rapid.T, items []any, g *pgen, label string) *Node {
 		if k <= 1 {
 			return 0
 		}
-		return rapid.IntRange(0, k-1).Draw(t, label+l)
+		return uniform(t, k, label+l)
 	}
 	var flat []any
 	for _, it := range items {
